@@ -1,0 +1,18 @@
+// Copyright IBM Corp. 2020, 2025
+// SPDX-License-Identifier: MPL-2.0
+
+//go:build verif
+
+package segment
+
+// VerifSched, when set, is called at named schedule points so that a
+// verification harness can order goroutines deterministically at the places
+// where readers share state (the pooled read buffers). Only compiled with the
+// "verif" build tag.
+var VerifSched func(point string)
+
+func verifSched(point string) {
+	if f := VerifSched; f != nil {
+		f(point)
+	}
+}
